@@ -50,7 +50,8 @@ CONSTANTS
   MaxDocs,
   ScalarStyles,  \* subset of {"plain","single","double","lit","fold"}
   CollStyles,    \* subset of {"block","flow"}
-  MaxDecor,      \* decorations (anchor, comment, pre-line, variant, alias) per stream
+  MaxDecor,      \* budget of non-default choices per stream (anchor, alias, comment, pre-line,
+                 \* variant, document flag, non-minimal indent, non-LF break): each costs 1
   Indents,       \* indent widths
   Breaks,        \* subset of {"LF","CRLF","CR"}
   DocFlags       \* doc-level flags allowed to be 1: subset of {"ds","de","zi","cmp","fsp"}
@@ -272,22 +273,27 @@ Close ==
   /\ stack' = SubSeq(stack, 1, Len(stack) - 1)
   /\ UNCHANGED <<docs, nodes, dec, phase, br>>
 
-Flag(name) == IF name \in DocFlags THEN {0, 1} ELSE {0}
+Flag(name) == IF name \in DocFlags THEN B({0, 1}) ELSE {0}
+MinIndent == CHOOSE w \in Indents : \A v \in Indents : w <= v
 
+\* document- and stream-level choices draw on the same decoration budget: each flag set,
+\* a non-minimal indent width and a non-LF break kind cost 1
 EndDoc ==
   /\ phase = "build" /\ stack = <<>> /\ nodes # <<>>
-  /\ \E ds \in Flag("ds"), de \in Flag("de"), w \in Indents, zi \in Flag("zi"), cmp \in Flag("cmp"),
-        fsp \in Flag("fsp") :
-       docs' = Append(docs, [nodes |-> nodes, used |-> Used,
-                             o |-> [ds |-> IF docs # <<>> THEN 1 ELSE ds, de |-> de, w |-> w,
-                                    zi |-> zi, cmp |-> cmp, fsp |-> fsp]])
+  /\ \E ds \in (IF docs # <<>> THEN {1} ELSE Flag("ds")), de \in Flag("de"), w \in Indents, zi \in Flag("zi"),
+        cmp \in Flag("cmp"), fsp \in Flag("fsp") :
+       LET cost == (IF docs # <<>> THEN 0 ELSE ds) + de + zi + cmp + fsp + (IF w = MinIndent THEN 0 ELSE 1)
+       IN /\ cost <= Budget
+          /\ dec' = dec + cost
+          /\ docs' = Append(docs, [nodes |-> nodes, used |-> Used,
+                                   o |-> [ds |-> ds, de |-> de, w |-> w, zi |-> zi, cmp |-> cmp, fsp |-> fsp]])
   /\ nodes' = <<>>
-  /\ UNCHANGED <<stack, dec, phase, br>>
+  /\ UNCHANGED <<stack, phase, br>>
 
 Finish ==
   /\ phase = "build" /\ nodes = <<>> /\ docs # <<>>
   /\ phase' = "done"
-  /\ br' \in Breaks
+  /\ br' \in (IF Budget > 0 THEN Breaks ELSE Breaks \cap {"LF"})
   /\ UNCHANGED <<docs, nodes, stack, dec>>
 
 MoreDocs == Len(docs) < MaxDocs
